@@ -169,7 +169,7 @@ def _mentions_float_read(fn: FuncInfo, e: ast.expr) -> bool:
     return any(isinstance(x, ast.Call) and norm(x.func) in ("read_float4", "unpack") for x in ast.walk(e))
 
 
-def _divisor_ok(ctx: Ctx, fn: FuncInfo, e: ast.expr, tabs) -> Tuple[bool, str]:
+def _divisor_ok(ctx: Ctx, fn: FuncInfo, e: ast.expr, tabs, _depth: int = 0) -> Tuple[bool, str]:
     prog = ctx.prog
     try:
         v = prog.consteval(e, fn.module)
@@ -182,6 +182,21 @@ def _divisor_ok(ctx: Ctx, fn: FuncInfo, e: ast.expr, tabs) -> Tuple[bool, str]:
         if scales and all(isinstance(s, int) and s != 0 for s in scales):
             return True, "all %d rows with a scale use a non-zero constant" % len(scales)
         return False, "a table row passes scale 0 or a non-constant"
+    # a parameter that is never rebound: every call site of the function must pass a non-zero divisor
+    if isinstance(e, ast.Name) and e.id in fn.params and not any(
+            isinstance(n, ast.Name) and n.id == e.id and isinstance(n.ctx, ast.Store) for n in ast.walk(fn.node)) and _depth < 3:
+        from ..calls import arg_for
+        sites = ctx.res.callers_of(fn)
+        if not sites:
+            return False, "parameter %s of a function nobody calls" % e.id
+        for ct in sites:
+            a = arg_for(ct.node, fn, e.id)
+            if a is None:
+                return False, "a call site (%s) does not pass %s" % (ct.caller.short, e.id)
+            ok, why = _divisor_ok(ctx, ct.caller, a, tabs, _depth + 1)
+            if not ok:
+                return False, "call site in %s passes %s: %s" % (ct.caller.short, norm(a), why)
+        return True, "all %d call sites pass a non-zero divisor" % len(sites)
     return False, "not a constant"
 
 
@@ -345,36 +360,56 @@ def r2(ctx: Ctx, rep: Report):
 
 
 def _isolating_loop(prog, fn, call_name: str, must_catch) -> Tuple[bool, str]:
+    """Path rule over the loop around <item>.<call_name>(...): in every iteration in which the call raises one of the
+    *must_catch* classes the exception is caught, None is stored for the item and the loop goes on; in every other
+    iteration the value is stored.  (Where the store sits relative to the try block does not matter.)"""
+    from ..paths import enumerate_paths
+    from ..replay import Replay
     if fn is None:
         return False, "method missing"
-    loops = [n for n in ast.walk(fn.node) if isinstance(n, (ast.For, ast.AsyncFor))]
-    for lp in loops:
-        tries = [s for s in lp.body if isinstance(s, ast.Try)]
-        if len(tries) != 1:
-            continue
-        t = tries[0]
-        calls = [x for b in t.body for x in ast.walk(b) if isinstance(x, ast.Call) and isinstance(x.func, ast.Attribute) and x.func.attr == call_name]
-        if not calls:
-            continue
-        stores_ok = any(isinstance(x, ast.Assign) and isinstance(x.targets[0], ast.Subscript) for b in t.body for x in ast.walk(b))
-        if not stores_ok:
-            return False, "the decoded value is not stored into the result inside the try"
-        caught: List = []
-        none_ok = True
-        for h in t.handlers:
-            classes = prog.resolve_exc_expr(fn.module, h.type) if h.type is not None else []
-            caught += [prog.exc_name(c) for c in classes] if h.type is not None else ["<bare>"]
-            assigns = [x for b in h.body for x in ast.walk(b) if isinstance(x, ast.Assign) and isinstance(x.targets[0], ast.Subscript)
-                       and isinstance(x.value, ast.Constant) and x.value.value is None]
-            leaves = [x for b in h.body for x in ast.walk(b) if isinstance(x, (ast.Raise, ast.Return, ast.Break))]
-            if not assigns or leaves:
-                none_ok = False
-        base_ok = all(any(c == need or c in ("Exception", "<bare>", "BaseException") or (need == "RequestFailedException" and c == "InverterError") for c in caught) for need in must_catch)
-        if not base_ok:
-            return False, "the handler catches %s, not %s" % (caught, list(must_catch))
-        if not none_ok:
-            return False, "a handler does not store None for the failed item (or leaves the loop)"
-        if t.finalbody and any(isinstance(x, (ast.Return, ast.Break, ast.Raise)) for b in t.finalbody for x in ast.walk(b)):
-            return False, "the finally block leaves the loop"
-        return True, ""
-    return False, "no loop with a per-item try/except around %s() found" % call_name
+    classes = []
+    for name in must_catch:
+        classes.append(prog.cls(name) if prog.has_cls(name) else prog.ext_class("builtins." + name))
+
+    def is_call(n):
+        return isinstance(n, ast.Call) and isinstance(n.func, ast.Attribute) and n.func.attr == call_name
+
+    loops = [lp for lp in ast.walk(fn.node) if isinstance(lp, (ast.For, ast.AsyncFor)) and any(is_call(x) for x in ast.walk(lp))]
+    if not loops:
+        return False, "no loop around %s() found" % call_name
+    lp = loops[-1]     # innermost
+
+    def oracle(node, f):
+        return classes if is_call(node) else []
+    seen_fail = seen_ok = 0
+    for p in enumerate_paths(prog, fn, oracle, unroll=1):
+        rp = None
+        iters = [i for i, ev in enumerate(p.events) if ev.kind == "iter" and ev.node is lp]
+        for a, b in zip(iters, iters[1:] + [len(p.events)]):
+            if isinstance(p.events[a].data, str):
+                continue      # the exit marker
+            window = p.events[a:b]
+            called = [ev for ev in window if (ev.kind in ("call", "raise")) and is_call(ev.node)]
+            if not called:
+                continue
+            failed = [ev for ev in window if ev.kind == "raise" and is_call(ev.node)]
+            closed = b < len(p.events)        # the loop went on to the next item / finished normally
+            stores = [(a + k, ev.node) for k, ev in enumerate(window) if ev.kind == "stmt" and isinstance(ev.node, ast.Assign)
+                      and isinstance(ev.node.targets[0], ast.Subscript)]
+            if rp is None:
+                rp = Replay(prog, fn, p)
+            is_none = [rp.sym_at(i).lin(st.value).single_term() == ("const", "None") for i, st in stores]
+            if failed:
+                seen_fail += 1
+                exc = prog.exc_name(failed[0].data)
+                if not closed:
+                    return False, "%s raised by %s() for one item ends the whole loop (%s)" % (exc, call_name, p.describe(6))
+                if not stores or not is_none[-1]:
+                    return False, "after %s in %s() the item is not stored as None (%s)" % (exc, call_name, p.describe(6))
+            else:
+                seen_ok += 1
+                if closed and (not stores or is_none[-1]):
+                    return False, "the decoded value is not stored into the result (%s)" % p.describe(6)
+    if not seen_fail or not seen_ok:
+        return False, "no iteration of the loop around %s() could be followed" % call_name
+    return True, ""
